@@ -118,7 +118,12 @@ def run_cases(exe, cases, timeout=900):
     for ever), so it is restarted on the remaining cases"""
     out = []
     rest = list(cases)
+    restarts = 0
     while rest:
+        if restarts > 8:      # a broken tree: every further case would cost a watchdog period
+            out += ["SKIPPED"] * len(rest)
+            break
+        restarts += 1
         rc, o, e = vlib.sh([exe], input=("\n".join(rest) + "\n").encode(), timeout=timeout)
         lines = o.split("\n")
         if lines and lines[-1] == "":
@@ -240,6 +245,8 @@ def check(ctx, exe, cases, with_model=True):
     kinds = {}
     dfs_runs = 0
     for c, o in zip(cases, iout):
+        if o == "SKIPPED":
+            continue
         f = c.split()
         kind = f[0] + (":" + f[4].split(":")[0] if f[0] == "PCQ" else "")
         kinds[kind] = kinds.get(kind, 0) + 1
@@ -259,7 +266,8 @@ def check(ctx, exe, cases, with_model=True):
             head = parts[0]
             if not head.startswith("dfs runs="):
                 d = parse_run(head.replace("dfs-failed ", ""))
-                spec_fail.append(("pcqueue:" + (d["status"].split()[-1] if d["status"] else "dfs").split("-")[0].split(" ")[0], c, o[:600], "exhaustive schedule enumeration: " + head[:300]))
+                spec_fail.append(("pcqueue:" + ("stuck" if "stuck" in head else "deadlock" if "deadlock" in head else "hang" if "HANG" in head else "dfs-failed"),
+                                  c, o[:600], "exhaustive schedule enumeration: " + head[:300]))
                 continue
             hd = dict(x.split("=") for x in head.split(" first=")[0].split()[1:])
             dfs_runs += int(hd["runs"])
